@@ -67,6 +67,9 @@ type Stats struct {
 	RacesSeen     int            `json:"races_seen"`
 	DedupAudits   int            `json:"dedup_audits,omitempty"`
 	FrontierSize  int            `json:"frontier_size,omitempty"`
+	SubShard      string         `json:"sub_shard,omitempty"`
+	KeyHashes     []uint64       `json:"key_hashes,omitempty"`
+	NontrivHashes []uint64       `json:"nontriv_hashes,omitempty"`
 	endStates     map[string]struct{}
 	nontrivialSet map[string]struct{}
 }
